@@ -18,7 +18,10 @@ R2.4  stream_encode_multipart / encode_multipart / _iter_data: one part per valu
       value's own bytes, every encoder chunk written unmodified and in order.
 R2.5  urlencoded writer and readers agree (_urlencode, iter_multi_items, both parse_qsl calls).
 R2.6  wiring: EnvironBuilder.get_environ and FormDataParser hand boundary, length, body and query
-      string through unchanged.
+      string through unchanged; EnvironBuilder data intake and FileMultiDict.add_file keep what the
+      caller gave.
+R2.7  the Content-Disposition line the encoder writes is read back by parse_options_header as
+      exactly {name, filename}, on a finite family of values built from the reader's own delimiters.
 """
 
 from __future__ import annotations
@@ -48,9 +51,10 @@ LEVEL_TEXT = (
     "by every boundary pattern (non-final / final group), header lines end in a line break, contain no empty line, carry name (and filename "
     "for File only) verbatim in utf-8 and the event's other headers, header end + first-chunk prefix is exactly one match of the blank-line "
     "pattern, the prefix is exactly what one anchored match of the line-break pattern removes at DATA_START, later chunks are written and read "
-    "from offset 0 unchanged; (R2.4) stream_encode_multipart (dict and MultiDict input, with and without spill to a temporary file) sends "
+    "from offset 0 unchanged, a part is accepted as the very first event, and the pattern whose match start ends a payload rejects near-copies "
+    "of the delimiter (no line break in front, trailing text, truncated, other case, wrong number of dashes); (R2.4) stream_encode_multipart (dict and MultiDict input, with and without spill to a temporary file) sends "
     "Preamble, one Field/File per (key, value) in data order with repeated keys kept, text payload = value encoded with the charset the parser "
-    "falls back to, file payload = the chunks read in order with filename and content type, Epilogue; every chunk send_event returns is in the "
+    "falls back to, file payload = the chunks read in order with filename and content type, a readable value without filename goes out as a plain field, Epilogue; every chunk send_event returns is in the "
     "returned stream once, in order, unmodified; the stream is rewound, the length is its size, the boundary given to the encoder is the one "
     "returned; encode_multipart returns (boundary, whole body); (R2.5) _urlencode passes to urllib's urlencode exactly the pairs of "
     "iter_multi_items(query) whose value is not None, in order, with a constant safe set free of & = + % # and space; iter_multi_items yields "
@@ -60,12 +64,19 @@ LEVEL_TEXT = (
     "str(length) and boundary returned by stream_encode_multipart(form + files) into wsgi.input / CONTENT_LENGTH / CONTENT_TYPE, the encoded "
     "_urlencode(form) with its length for urlencoded forms, _urlencode(args) into QUERY_STRING, also when multipart/form-data is only "
     "set as content type and there are no files; EnvironBuilder(data=mapping) stores every text value in the form per key in order and hands "
-    "every file value (tuples complete, several uploads under one name) to files.add_file; FormDataParser.parse hands the encoded boundary "
-    "option to the decoder and returns (stream, form, files) in that order, and routes urlencoded bodies to the urlencoded reader. It decides "
-    "these clauses on all paths of the interpreted scenarios. It does NOT decide the round-trip equality itself: that the decoder's state "
+    "every file value (tuples complete, several uploads under one name) to files.add_file; FileMultiDict.add_file stores a FileStorage built "
+    "from the caller's stream, field name, filename and, when one is given, content type (a guessed type never replaces an explicit one) and "
+    "stores a FileStorage value as it is; FormDataParser.parse hands the encoded boundary "
+    "option to the decoder and returns (stream, form, files) in that order, and routes urlencoded bodies to the urlencoded reader; (R2.7) the "
+    "Content-Disposition line send_event writes for File(name=N, filename=F), with N and F taken in turn from a finite family - every "
+    "punctuation character that occurs as a constant in parse_options_header or in the module-level patterns it uses placed inside, in front "
+    "of and behind a word, parameter look-alikes such as `who; name=else`, RFC 2231 look-alikes, percent escapes (%0D %0A %5C %25 %3B %20), "
+    "blanks, the empty string, non-ASCII text, upper case; never the characters the domain excludes - is read by parse_options_header, "
+    "interpreted from its source on that constant, as exactly ('form-data', {name: N, filename: F}). It decides "
+    "R2.1-R2.6 on all paths of the interpreted scenarios and R2.7 for the members of the family only (a finite sample of the domain, not all N, F). It does NOT decide the round-trip equality itself: that the decoder's state "
     "machine inverts the encoder on payload bytes next to delimiters and across chunk boundaries (C01 decides its chunking clauses, e.g. the "
-    "search-offset typestate R1.2; the core is undecided there too), what parse_options_header (its unquoting chain is decided under C06-R6.2), "
-    "Headers, FileStorage, urlencode/parse_qsl and the codecs do with special characters, size-limit accounting (C10), the declared-charset branch of "
+    "search-offset typestate R1.2; the core is undecided there too), what parse_options_header does with values outside the R2.7 family (its unquoting chain is also decided under C06-R6.2), what "
+    "Headers, FileStorage.__init__, urlencode/parse_qsl and the codecs do with special characters, size-limit accounting (C10), the declared-charset branch of "
     "get_part_charset, Request.form/files plumbing above FormDataParser.parse, and how a caller splits a part into Data events (an empty first "
     "Data event followed by payload is noted, not checked)."
 )
@@ -73,6 +84,7 @@ TRUSTED = [
     "CPython ast and re (patterns folded from the source are run on delimiters folded from the source)",
     "the interpreter in wzsa/rules/_c02_helpers.py models python semantics for the subset the analysed functions use; anything outside it is ANALYSIS-ERROR",
     "urllib.parse.urlencode / parse_qsl, io.BytesIO, tempfile.TemporaryFile behave as documented for CPython 3.12",
+    "urllib.parse.unquote / quote are called on constants when the interpreted source calls them on constants (same footing as re on folded constants)",
 ]
 ASSUMPTIONS = [
     "calls that leave the analysed module (parse_options_header, Headers, FileStorage, stream factory, _wsgi_encoding_dance) are opaque and do not raise",
@@ -253,7 +265,7 @@ def run(ctx: Ctx) -> None:
     folder = Folder(repo)
     for rid, text in RULES.items():
         ctx.rule(rid, text)
-    for rule in (rule_2_1, rule_2_2, rule_2_3, rule_2_4, rule_2_5, rule_2_6):
+    for rule in (rule_2_1, rule_2_2, rule_2_3, rule_2_4, rule_2_5, rule_2_6, rule_2_7):
         try:
             rule(ctx, repo, folder)
         except AnalysisError as e:
@@ -267,7 +279,8 @@ RULES = {
     "R2.3": "framing: each delimiter MultipartEncoder.send_event writes is consumed by every boundary pattern of the decoder (part vs. final form), header lines end in a line break and carry the name/filename parameters verbatim, the first payload chunk is prefixed with exactly one line break and the decoder removes exactly one by an anchored match, later chunks are written as they are, a part may be the first event, and the pattern that ends a payload rejects near-copies of the delimiter",
     "R2.4": "test client: stream_encode_multipart sends Preamble, then for every (key, value) of the data in order a Field/File event carrying key (and filename, content type) followed by Data events whose payloads concatenate to the value's own bytes (text encoded with the parser's fallback charset), then Epilogue; every chunk send_event returns is written unmodified and in order; the stream is rewound and its length reported; repeated keys are kept",
     "R2.5": "urlencoded: _urlencode drops only None values, keeps order and repeated keys (iter_multi_items), its safe set has no structural character; both readers call parse_qsl on the whole decoded text with keep_blank_values=True, default separator/limits/UTF-8, and hand the list unmodified to the multi-dict class",
-    "R2.6": "wiring: EnvironBuilder.get_environ passes the stream, length and boundary of stream_encode_multipart (form and files) / the _urlencode'd form / the _urlencode'd args into wsgi.input, CONTENT_LENGTH, CONTENT_TYPE and QUERY_STRING; EnvironBuilder(data=...) stores text values in the form and hands file values complete to files.add_file; FormDataParser hands the boundary option to the decoder and returns form and files in that order",
+    "R2.7": "Content-Disposition reader: for the header line MultipartEncoder.send_event writes for a File (name=N, filename=F), parse_options_header returns exactly ('form-data', {name: N, filename: F}) for every N, F of a finite family that places each delimiter character found as a constant in parse_options_header (and parameter look-alikes, percent escapes, blanks, non-ASCII, upper case) inside the quoted value",
+    "R2.6": "wiring: EnvironBuilder.get_environ passes the stream, length and boundary of stream_encode_multipart (form and files) / the _urlencode'd form / the _urlencode'd args into wsgi.input, CONTENT_LENGTH, CONTENT_TYPE and QUERY_STRING; EnvironBuilder(data=...) stores text values in the form and hands file values complete to files.add_file; FileMultiDict.add_file keeps an explicit filename and content type; FormDataParser hands the boundary option to the decoder and returns form and files in that order",
 }
 
 
@@ -1784,6 +1797,80 @@ def _builder_intake(ctx: Ctx, repo: Repo, folder: Folder) -> None:
     c.done()
 
 
+FSMOD = "werkzeug.datastructures.file_storage"
+
+
+def _add_file_clause(ctx: Ctx, repo: Repo, folder: Folder) -> None:
+    """FileMultiDict.add_file: what the caller gives explicitly (stream, filename, content type) is what is stored"""
+    fi = repo.func(f"{FSMOD}.FileMultiDict.add_file")
+    ctx.saw(fi)
+    c = Check(ctx, "R2.6", fi, "FileMultiDict.add_file stores a FileStorage with the caller's stream, field name, filename and - when one is given - content type; a FileStorage value is stored as it is", "FileMultiDict.add_file: explicit values kept")
+    n = 0
+    for shape in ("explicit", "no-type", "storage"):
+        hold: dict[str, t.Any] = {}
+
+        def thunk(ip_: Interp, shape=shape, hold=hold) -> t.Any:
+            added: list = []
+            self_ = Scripted("files", cls_fq=f"{FSMOD}.FileMultiDict", pytypes=(dict,))
+            self_.strict = True  # type: ignore[attr-defined]
+            self_.methods["add"] = lambda ip__, a, k: added.append((a[0] if a else k.get("key"), a[1] if len(a) > 1 else k.get("value")))
+            name, fn, ct = sym("NAME", "str", True), sym("FN", "str", True), sym("CT", "str", True)
+            stream = Scripted("UPLOAD")
+            stream.strict = True  # type: ignore[attr-defined]
+            stream.methods["read"] = lambda ip__, a, k: b""
+            if shape == "storage":
+                stream.cls_fq = f"{FSMOD}.FileStorage"
+                args: list = [name, stream]
+            elif shape == "explicit":
+                args = [name, stream, fn, ct]
+            else:
+                args = [name, stream, fn]
+            hold.update(added=added, name=name, fn=fn, ct=ct, stream=stream)
+            return ip_.call(H.Bound(self_, H.FuncVal(fi, fi.node, fi.module)), args, {})
+
+        ip = Interp(repo, folder, open_modules={FSMOD}, opaque={f"{FSMOD}.FileStorage"})
+        snaps: list = []
+
+        def wrapped(ip_: Interp, thunk=thunk, hold=hold, snaps=snaps) -> t.Any:
+            try:
+                return thunk(ip_)
+            finally:
+                snaps.append(dict(hold))
+
+        outs = ip.explore(wrapped)
+        check_raises(c, outs, set())
+        for o, hh in zip(outs, snaps):
+            if o.kind != "return":
+                continue
+            n += 1
+            added = hh["added"]
+            if len(added) != 1 or not (isinstance(added[0][0], T) and added[0][0] == hh["name"]):
+                c.fail(f"{shape}: add_file stores {fmt(added)}, expected one entry under the given name", None, o)
+                continue
+            v = added[0][1]
+            if shape == "storage":
+                if v is not hh["stream"]:
+                    c.fail(f"a FileStorage value is stored as `{fmt(v)}`", None, o)
+                else:
+                    c.ok("FileStorage stored as it is")
+                continue
+            if not (isinstance(v, T) and v.op == f"{FSMOD}.FileStorage" and not v.args):
+                c.fail(f"{shape}: stored value `{fmt(v)}` is not a FileStorage built from the arguments", v if isinstance(v, T) else None, o)
+                continue
+            kw = dict(v.kw)
+            want = {"stream": hh["stream"], "filename": hh["fn"], "name": hh["name"]}
+            if shape == "explicit":
+                want["content_type"] = hh["ct"]
+            bad = [k for k, w in want.items() if not (kw.get(k) is w or (isinstance(kw.get(k), T) and isinstance(w, T) and kw.get(k) == w))]
+            if bad:
+                k = bad[0]
+                c.fail(f"{shape}: FileStorage {k} is `{fmt(kw.get(k))}`, the caller gave `{fmt(want[k])}`" + (" (an explicit content type must win over one guessed from the filename)" if k == "content_type" else ""), kw.get(k) if isinstance(kw.get(k), T) else v, o)
+            else:
+                c.ok(f"{shape}: FileStorage({', '.join(sorted(want))}) as given")
+    ctx.floor("R2.6", "returning paths of the add_file scenarios", n, 3)
+    c.done()
+
+
 def rule_2_6(ctx: Ctx, repo: Repo, folder: Folder) -> None:
     fg = repo.func(f"{TEST}.EnvironBuilder.get_environ")
     ctx.saw(fg)
@@ -1909,6 +1996,7 @@ def rule_2_6(ctx: Ctx, repo: Repo, folder: Folder) -> None:
         c.done()
 
     _builder_intake(ctx, repo, folder)
+    _add_file_clause(ctx, repo, folder)
 
     # ---- FormDataParser.parse dispatch
     fp = repo.func(f"{FP}.FormDataParser.parse")
@@ -1985,3 +2073,106 @@ def rule_2_6(ctx: Ctx, repo: Repo, folder: Folder) -> None:
         else:
             c_ud.ok("(stream, cls(parse_qsl(body)), cls())")
     c_ud.done()
+
+
+# ---------------------------------------------------------------------
+# R2.7  the Content-Disposition line the encoder writes, read back by parse_options_header
+
+HTTP = "werkzeug.http"
+EXCLUDED_FROM_DOMAIN = ('"', "\\", "\r", "\n", "%22")
+
+
+def _delimiters_of(repo: Repo, folder: Folder, fi: FuncInfo) -> set[str]:
+    """punctuation characters that occur in the string constants of the function and in the patterns of the module-level
+    regexes it uses: the characters the reader gives a meaning to"""
+    texts: list[str] = []
+    for n in ast.walk(fi.node):
+        if isinstance(n, ast.Constant) and isinstance(n.value, str) and n is not getattr(fi.node.body[0], "value", None):  # type: ignore[attr-defined]
+            texts.append(n.value)
+        elif isinstance(n, ast.Name) and n.id in fi.module.assigns:
+            try:
+                v = folder.name(fi.module, n.id)
+            except AnalysisError:
+                continue
+            if isinstance(v, H.RegexConst) and isinstance(v.pattern, str):
+                texts.append(v.pattern)
+            elif isinstance(v, str):
+                texts.append(v)
+    return {ch for tx in texts for ch in tx if ch.isprintable() and not ch.isalnum() and ch not in EXCLUDED_FROM_DOMAIN}
+
+
+def _value_family(delims: set[str]) -> list[str]:
+    fam: list[str] = ["aB", "", "näme ü", "a b", " a", "a ", "a=b", "name=a", "a, b"]
+    for c in sorted(delims | {";", "=", " ", "*", "'", "%", ",", ":"}):
+        fam += [f"a{c}B", f"{c}a", f"a{c}"]
+    # parameter look-alikes inside the quoted value, RFC 2231 look-alikes, percent escapes of characters the reader could be tempted to undo
+    fam += ["who; name=else", "who; filename=else", "who;name=else", "x; name*=utf-8''y", "a*0", "a*", "utf-8''a", "a; b; c=d"]
+    fam += [f"a%{h}b" for h in ("0D", "0A", "5C", "25", "3B", "20", "2F", "c3%a4")]
+    out: list[str] = []
+    for v in fam:
+        if v not in out and not any(x in v for x in EXCLUDED_FROM_DOMAIN):
+            out.append(v)
+    return out
+
+
+def rule_2_7(ctx: Ctx, repo: Repo, folder: Folder) -> None:
+    fe = repo.func(f"{MP}.MultipartEncoder.send_event")
+    fp = repo.func(f"{HTTP}.parse_options_header")
+    ctx.saw(fe, fp)
+    # the line the encoder writes, with the name and the filename symbolic
+    ipe = Interp(repo, folder, open_modules={MP})
+
+    def enc_thunk(ip_: Interp) -> t.Any:
+        enc = ip_.instantiate(cls_of(repo, f"{MP}.MultipartEncoder"), [SAMPLE_BOUNDARY], {})
+        ip_.call(ip_.getattr(enc, "send_event"), [event(ip_, repo, "Preamble", data=b"")], {})
+        return ip_.call(ip_.getattr(enc, "send_event"), [event(ip_, repo, "File", name=sym("N1", "str", True), filename=sym("F1", "str", True), headers=scripted_headers("H0", {}))], {})
+
+    heads = [o.value for o in returns(ipe.explore(enc_thunk))]
+    if not heads:
+        raise AnalysisError("R2.7: the encoder produced no output for a File event (shape not understood)")
+    delims = _delimiters_of(repo, folder, fp)
+    ctx.floor("R2.7", "delimiter characters found as constants in parse_options_header", len(delims), 3)
+    family = _value_family(delims)
+    c = Check(ctx, "R2.7", fp, "parse_options_header reads the Content-Disposition line the encoder writes back as exactly ('form-data', {name, filename}) for every value of the family", "parse_options_header: encoder's Content-Disposition line")
+    ipp = Interp(repo, folder, open_modules={HTTP}, max_loop=2000)
+    n = 0
+    unknown: list[str] = []
+    for head in heads:
+        for i, val in enumerate(family):
+            other = family[(i * 7 + 3) % len(family)]
+            for nm, fn in ((val, "plain.txt"), ("field", val), (val, other)):
+                try:
+                    wire = H.concretise(head, {"N1": nm, "F1": fn})
+                except H.Impure:
+                    continue  # reported by R2.3
+                if not isinstance(wire, bytes):
+                    continue
+                lines = [l for l in wire.split(b"\r\n") if l.split(b":", 1)[0].strip().lower() == b"content-disposition"]
+                if len(lines) != 1:
+                    continue  # reported by R2.3
+                try:
+                    text = lines[0].split(b":", 1)[1].strip().decode("utf-8")
+                except UnicodeDecodeError:
+                    continue  # the encoder did not write utf-8: reported by R2.3
+
+                def thunk(ip_: Interp, text=text) -> t.Any:
+                    return ip_.call(ip_.load_name("parse_options_header", Frame(fp.module)), [text], {})
+
+                outs = ipp.explore(thunk, limit=50)
+                n += 1
+                want = ("form-data", {"name": nm, "filename": fn})
+                for o in outs:
+                    if o.kind == "raise":
+                        c.fail(f"`{text}` makes parse_options_header raise {fmt(o.value)}", None, o)
+                    elif o.kind == "return":
+                        got = o.value
+                        if H._has_term(got):
+                            unknown.append(f"parse_options_header({text!r}) did not evaluate to constants: {fmt(got)}")
+                        elif not (isinstance(got, tuple) and len(got) == 2 and got[0] == want[0] and got[1] == want[1]):
+                            c.fail(f"the encoder writes `{text}` for name={nm!r}, filename={fn!r}; parse_options_header returns {got!r}")
+                        else:
+                            c.ok(f"{len(family)} values x 3 positions read back")
+    ctx.floor("R2.7", "header lines evaluated", n, 30)
+    if unknown and not c.bad:
+        raise AnalysisError("R2.7: " + unknown[0])
+    c.done()
